@@ -4,11 +4,11 @@
 # Distributed under the terms of the Modified BSD License.
 
 import operator
-from collections import defaultdict
 import difflib
 
 from ..diff_format import SequenceDiffBuilder, MappingDiffBuilder, validate_diff
 from ..diff_utils import count_consumed_symbols
+from ..utils import defaultdict2
 
 from .config import DiffConfig
 from .sequences import diff_strings_linewise, diff_sequence
@@ -18,11 +18,11 @@ __all__ = ["diff"]
 
 
 def default_predicates():
-    return defaultdict(lambda: (operator.__eq__,))
+    return defaultdict2(lambda: (operator.__eq__,), {})
 
 
 def default_differs():
-    return defaultdict(lambda: diff)
+    return defaultdict2(lambda: diff, {})
 
 
 def compare_strings_approximate(x, y, threshold=0.7, maxlen=None):
